@@ -60,6 +60,8 @@ type c15Special struct {
 	name string
 	p    data.Point
 	edge bool
+	// liveFirst: the point is first written live (tombstone count 0) and then, in a later write, with its tombstone count
+	liveFirst bool
 }
 
 var c15Strings = []string{"", "a", " a ", "a: b", "- x", "-", "#c", "'", "\"", "null", "Null", "NULL", "~", "true", "false", "yes", "no", "on", "off", "1e3", "0x1F", "0o17", "1_000", "12", "1.5",
@@ -78,9 +80,9 @@ func c15Specials(full bool) []c15Special {
 		vals = []float64{1, -1.5, 1e6, 1234567.25}
 	}
 	for _, s := range strs {
-		out = append(out, c15Special{fmt.Sprintf("text=%q", s), data.Point{Type: "tx", Text: s, Value: 1}, false})
+		out = append(out, c15Special{fmt.Sprintf("text=%q", s), data.Point{Type: "tx", Text: s, Value: 1}, false, false})
 		if s != "" {
-			out = append(out, c15Special{fmt.Sprintf("key=%q", s), data.Point{Type: "kx", Key: s, Value: 2}, false})
+			out = append(out, c15Special{fmt.Sprintf("key=%q", s), data.Point{Type: "kx", Key: s, Value: 2}, false, false})
 		}
 	}
 	// the node's own description with white space at its ends (the import appends its marker to the top node's description and to nothing else)
@@ -89,27 +91,29 @@ func c15Specials(full bool) []c15Special {
 		descs = []string{" a ", "a ", " a", "x\n", "\nlead", "multi\nline", " ", "a\u00a0", "a\n\n", "\ta"}
 	}
 	for _, s := range descs {
-		out = append(out, c15Special{fmt.Sprintf("description=%q", s), data.Point{Type: data.PointTypeDescription, Text: s}, false})
+		out = append(out, c15Special{fmt.Sprintf("description=%q", s), data.Point{Type: data.PointTypeDescription, Text: s}, false, false})
 	}
 	for _, v := range vals {
-		out = append(out, c15Special{fmt.Sprintf("value=%v", v), data.Point{Type: "vx", Value: v}, false})
+		out = append(out, c15Special{fmt.Sprintf("value=%v", v), data.Point{Type: "vx", Value: v}, false, false})
 	}
 	for _, k := range []string{"", "0", "1", "k"} {
-		out = append(out, c15Special{fmt.Sprintf("key=%q+value", k), data.Point{Type: "arr", Key: k, Value: 7}, false})
-		out = append(out, c15Special{fmt.Sprintf("edge key=%q", k), data.Point{Type: "role", Key: k, Value: 3, Text: "r"}, true})
+		out = append(out, c15Special{fmt.Sprintf("key=%q+value", k), data.Point{Type: "arr", Key: k, Value: 7}, false, false})
+		out = append(out, c15Special{fmt.Sprintf("edge key=%q", k), data.Point{Type: "role", Key: k, Value: 3, Text: "r"}, true, false})
 	}
 	out = append(out,
-		c15Special{"tombstone=1", data.Point{Type: "tb", Value: 4, Text: "gone", Tombstone: 1}, false},
-		c15Special{"tombstone=2", data.Point{Type: "tb", Value: 4, Text: "back", Tombstone: 2}, false},
-		c15Special{"edge text", data.Point{Type: "etx", Text: "edge: text", Value: 1.5}, true},
-		c15Special{"edge zero value", data.Point{Type: "slot", Key: "a", Value: 0}, true},
-		c15Special{"edge tombstoned point", data.Point{Type: "etb", Value: 4, Text: "x", Tombstone: 1}, true},
-		c15Special{"edge tombstoned zero point", data.Point{Type: "ez", Tombstone: 1}, true},
-		c15Special{"zero value point", data.Point{Type: "zv", Key: "b", Value: 0}, false},
-		c15Special{"nodeID->sibling", data.Point{Type: data.PointTypeNodeID, Text: "REF-LAST"}, false},
-		c15Special{"nodeID->top", data.Point{Type: data.PointTypeNodeID, Text: "REF-TOP"}, false},
-		c15Special{"nodeID->outside", data.Point{Type: data.PointTypeNodeID, Text: "outside-id"}, false},
-		c15Special{"nodeID empty", data.Point{Type: data.PointTypeNodeID, Text: ""}, false},
+		c15Special{"tombstone=1", data.Point{Type: "tb", Value: 4, Text: "gone", Tombstone: 1}, false, false},
+		c15Special{"tombstone=2", data.Point{Type: "tb", Value: 4, Text: "back", Tombstone: 2}, false, false},
+		c15Special{name: "tombstone=1 after a live write", p: data.Point{Type: "tb", Key: "k2", Value: 4, Text: "gone", Tombstone: 1}, liveFirst: true},
+		c15Special{name: "edge tombstone=1 after a live write", p: data.Point{Type: "etb", Key: "k2", Value: 4, Text: "x", Tombstone: 1}, edge: true, liveFirst: true},
+		c15Special{"edge text", data.Point{Type: "etx", Text: "edge: text", Value: 1.5}, true, false},
+		c15Special{"edge zero value", data.Point{Type: "slot", Key: "a", Value: 0}, true, false},
+		c15Special{"edge tombstoned point", data.Point{Type: "etb", Value: 4, Text: "x", Tombstone: 1}, true, false},
+		c15Special{"edge tombstoned zero point", data.Point{Type: "ez", Tombstone: 1}, true, false},
+		c15Special{"zero value point", data.Point{Type: "zv", Key: "b", Value: 0}, false, false},
+		c15Special{"nodeID->sibling", data.Point{Type: data.PointTypeNodeID, Text: "REF-LAST"}, false, false},
+		c15Special{"nodeID->top", data.Point{Type: data.PointTypeNodeID, Text: "REF-TOP"}, false, false},
+		c15Special{"nodeID->outside", data.Point{Type: data.PointTypeNodeID, Text: "outside-id"}, false, false},
+		c15Special{"nodeID empty", data.Point{Type: data.PointTypeNodeID, Text: ""}, false, false},
 	)
 	return out
 }
@@ -340,6 +344,9 @@ func c15Run(x *mc.X, sp c15Special, shape c15Shape, pos, target int, preserve bo
 		tick := func() time.Time { clock++; return time.Unix(0, clock) }
 		// build
 		last := shape.nodes[len(posNodes)-1].id
+		var late *data.Point // the second, tombstoned write of a live-first special
+		var lateEdge bool
+		var lateNode, lateParent string
 		for i, n := range shape.nodes {
 			parent := a.RootID
 			if n.parent >= 0 {
@@ -363,6 +370,13 @@ func c15Run(x *mc.X, sp c15Special, shape c15Shape, pos, target int, preserve bo
 				case "REF-TOP":
 					p.Text = shape.nodes[0].id
 				}
+				if sp.liveFirst {
+					second := p
+					second.Time = tick()
+					late = &second
+					lateEdge, lateNode, lateParent = sp.edge, n.id, parent
+					p.Tombstone = 0
+				}
 				if sp.edge {
 					epts = append(epts, p)
 				} else {
@@ -385,6 +399,17 @@ func c15Run(x *mc.X, sp c15Special, shape c15Shape, pos, target int, preserve bo
 				return mc.Outcome{Violation: "HARNESS: build: " + err.Error(), Key: "harness"}
 			}
 			x.Step(1)
+		}
+		if late != nil {
+			var err error
+			if lateEdge {
+				err = client.SendEdgePoints(a.Nc, lateNode, lateParent, data.Points{*late}, true)
+			} else {
+				err = client.SendNodePoints(a.Nc, lateNode, data.Points{*late}, true)
+			}
+			if err != nil {
+				return mc.Outcome{Violation: "HARNESS: second write of the special point: " + err.Error(), Key: "harness"}
+			}
 		}
 		for _, n := range shape.nodes {
 			if n.deleted {
